@@ -85,6 +85,27 @@ def term_predicates(lines, iobs):
     return out
 
 
+def nontrivial(pid, script, iobs):
+    """keys of the distinct non-trivial cases of one script (see 'rule')"""
+    keys = set()
+    lines = script.splitlines()
+    for ln, tx in iobs.items():
+        m = re.search(r"dump=(.*)$", tx)
+        if m and " n1=" in m.group(1):
+            keys.add(hashlib.md5(m.group(1).encode()).hexdigest())
+            continue
+        if tx.startswith("mm req"):
+            m = re.search(r"addr=(\d+) got=(\d+)", tx)
+            if m and m.group(1) != "0":
+                keys.add("mm:%s:%s:%s" % (lines[1] if len(lines) > 1 else "", m.group(1), m.group(2)))
+        elif tx.startswith("term ") and " h=0 " not in tx + " ":
+            if 0 < ln <= len(lines):
+                keys.add(lines[ln - 1])
+        elif tx.startswith(("iter", "getelem", "card", "range", "audit")):
+            keys.add(hashlib.md5(tx.encode()).hexdigest())
+    return keys
+
+
 def signature(pid, script, ds):
     """stable key of a violation for known_findings.json"""
     d = ds[0] if ds else {}
@@ -102,6 +123,7 @@ def extra_checks(pid, tier, seed, exe, workdir):
 EXTRA = {}
 
 HOOK_COMMITS = ["ec0e30b"]
+FIX_COMMITS = ["f38d614", "53a1696", "ab48bfa"]
 
 _MODELLED = ("Modelled, not verified: the C++ itself; the theorems are about the Gallina model "
              "(coq/theories/Model), tied to the code only by the correspondence run. ")
@@ -157,6 +179,20 @@ PROPS["C19"] = dict(
                "double->float conversion of rangeval and forest::termprec rounding are outside the codec model; "
                "EV+/EV* edge values are covered through C03-style scripts only.")
 
+PROPS["C18"] = dict(
+    gens=[("mmhist", gen.gen_C18, 1.0)], quick=40, thorough=600,
+    rule="random request/recycle histories (5 styles x 2 granularities x 5 recycle orders); every live chunk is "
+         "filled with a per-chunk sentinel re-checked after every few calls; distinct_nontrivial = distinct "
+         "(style, address, size) responses with a non-null address",
+    level_text="Proved: every history accepted by the monitor [accept] keeps live chunks pairwise disjoint, "
+               "inside the arena and at least as large as requested, and hands memory out again only after a "
+               "covering recycle (for any number of events). Tie: the extracted monitor validates every "
+               "response of all five manager styles; the free-list style is additionally replayed by a "
+               "deterministic replica whose addresses must match; sentinel integrity is checked in the driver.",
+    level_note="Modelled, not verified: hole bookkeeping (grid, heap, boundary tags) of array_grid/orig_grid/"
+               "heap_manager -- they are validated response by response by the proven-sound monitor, not "
+               "replicated; malloc_style relies on libc. 'Contents never altered' is the driver's sentinel check.")
+
 NOT_APPLICABLE = {}
-for _p in ["C02", "C06", "C07", "C08", "C09", "C11", "C12", "C13", "C14", "C15", "C16", "C17", "C18", "C20"]:
+for _p in ["C02", "C06", "C07", "C08", "C09", "C11", "C12", "C13", "C14", "C15", "C16", "C17", "C20"]:
     NOT_APPLICABLE[_p] = "check under construction in this session (model and correspondence stream not registered yet)"
